@@ -39,6 +39,7 @@ pub struct PeerHandler {
     piece_tx: Option<PieceTx>,
     piece_rx: Option<PieceRx>,
     peer_state: State,
+    handshake_done: bool,
     stats: Stats,
     msg_buff: Vec<Frame>,
     peer_ch: mpsc::Sender<PeerCmd>,
@@ -171,6 +172,7 @@ impl PeerHandler {
                 interested: false,
                 keep_alive: 0,
             },
+            handshake_done: false,
             stats: Stats::new(),
             msg_buff: vec![],
             peer_ch,
@@ -321,6 +323,14 @@ impl PeerHandler {
                     _ => 0,
                 };
 
+                // Peer is not served (and gets no reply) before its handshake was validated
+                if !self.handshake_done {
+                    match frame {
+                        Frame::Handshake(_) => (),
+                        _ => return Err(Error::HandshakeNotReceived.into()),
+                    }
+                }
+
                 let handled = match frame {
                     Frame::Handshake(handshake) => self.handle_handshake(&handshake).await?,
                     Frame::KeepAlive(_) => true,
@@ -353,6 +363,7 @@ impl PeerHandler {
 
         let peer_init_handshake = self.peer_id.is_none();
         self.peer_id = Some(*handshake.peer_id());
+        self.handshake_done = true;
 
         if peer_init_handshake {
             self.init_handshake(*handshake.peer_id()).await?;
